@@ -49,10 +49,10 @@ void verif_in(const char* name, int idx, void* p, int size);
 #ifndef VERIF_CUF
 #define VERIF_CUF
 #ifdef __CPROVER__
-static inline float verif_uf_fadd_float(float a, float b) { uint32_t x, y; memcpy(&x, &a, 4); memcpy(&y, &b, 4); return x <= y ? __CPROVER_uninterpreted_fadd_float(a, b) : __CPROVER_uninterpreted_fadd_float(b, a); }
-static inline float verif_uf_fmul_float(float a, float b) { uint32_t x, y; memcpy(&x, &a, 4); memcpy(&y, &b, 4); return x <= y ? __CPROVER_uninterpreted_fmul_float(a, b) : __CPROVER_uninterpreted_fmul_float(b, a); }
-static inline double verif_uf_fadd_double(double a, double b) { uint64_t x, y; memcpy(&x, &a, 8); memcpy(&y, &b, 8); return x <= y ? __CPROVER_uninterpreted_fadd_double(a, b) : __CPROVER_uninterpreted_fadd_double(b, a); }
-static inline double verif_uf_fmul_double(double a, double b) { uint64_t x, y; memcpy(&x, &a, 8); memcpy(&y, &b, 8); return x <= y ? __CPROVER_uninterpreted_fmul_double(a, b) : __CPROVER_uninterpreted_fmul_double(b, a); }
+static inline float verif_uf_fadd_float(float a, float b) { union { float f; uint32_t u; } x, y; x.f = a; y.f = b; return x.u <= y.u ? __CPROVER_uninterpreted_fadd_float(a, b) : __CPROVER_uninterpreted_fadd_float(b, a); }
+static inline float verif_uf_fmul_float(float a, float b) { union { float f; uint32_t u; } x, y; x.f = a; y.f = b; return x.u <= y.u ? __CPROVER_uninterpreted_fmul_float(a, b) : __CPROVER_uninterpreted_fmul_float(b, a); }
+static inline double verif_uf_fadd_double(double a, double b) { union { double f; uint64_t u; } x, y; x.f = a; y.f = b; return x.u <= y.u ? __CPROVER_uninterpreted_fadd_double(a, b) : __CPROVER_uninterpreted_fadd_double(b, a); }
+static inline double verif_uf_fmul_double(double a, double b) { union { double f; uint64_t u; } x, y; x.f = a; y.f = b; return x.u <= y.u ? __CPROVER_uninterpreted_fmul_double(a, b) : __CPROVER_uninterpreted_fmul_double(b, a); }
 #else
 static inline float verif_uf_fadd_float(float a, float b) { return a + b; }
 static inline float verif_uf_fmul_float(float a, float b) { return a * b; }
